@@ -21,7 +21,6 @@ import (
 )
 
 const findingSig = "series-torn-id-bytes-alias"
-const findingSig2 = "series-torn-id-zero-entry-breaks-compacted-index"
 
 type jkey struct {
 	Name string      `json:"name"`
@@ -54,8 +53,8 @@ type jcase struct {
 	// fills up; judged by the trace oracle only (Go side + Coq oracle on the id skeleton).
 	Roll     bool `json:"rollover,omitempty"`
 	RollTail int  `json:"rollover_tail_bytes,omitempty"` // bytes left free in segment 0000 after the first op
-	// set when, in a history of the second known-finding shape (an insert entry cut inside its
-	// flag+id bytes, later an index compaction), the compaction changed SeriesID of some key:
+	// set when, in a history with an insert entry cut inside its flag+id bytes and a later index
+	// compaction, the compaction changed SeriesID / a live table row of some key:
 	// the history stops there (FailAt = index of that compact op).
 	FailAt   int    `json:"impl_fail_at,omitempty"`
 	FailWhat string `json:"impl_fail_what,omitempty"`
@@ -464,21 +463,6 @@ func shapeSig(c *jcase) string {
 	return ""
 }
 
-// shape of the second known finding, decided from the inputs only: a crash_create cut inside the
-// flag+id bytes (1 <= n <= 8) followed later by an index compaction.
-func shapeSig2(c *jcase) string {
-	torn := false
-	for _, o := range c.Ops {
-		if o.T == "crash_create" && o.N >= 1 && o.N <= 8 {
-			torn = true
-		}
-		if o.T == "compact" && torn {
-			return findingSig2
-		}
-	}
-	return ""
-}
-
 // traceOracle is the Go rendering of steps_ok of coq/Model/C13.v (the property stated on the
 // observed trace alone): returns "" or a description of the first breach.
 func traceOracle(c *jcase) string {
@@ -585,13 +569,13 @@ func emit(w *vh.W, c *jcase) {
 	var rerr error
 	if p := vh.Guard(func() { rerr = run(c) }); p != "" {
 		idx := w.Add(emptyCase, c, true, shapeSig(c))
-		w.Fail(idx, "panic in real series file: "+p, shapeSig2(c))
+		w.Fail(idx, "panic in real series file: "+p, shapeSig(c))
 		w.Count("panic", p)
 		return
 	}
 	if rerr != nil {
 		idx := w.Add(emptyCase, c, true, shapeSig(c))
-		w.Fail(idx, "error from real series file: "+rerr.Error(), shapeSig2(c))
+		w.Fail(idx, "error from real series file: "+rerr.Error(), shapeSig(c))
 		return
 	}
 	nontrivial := false // some key gets an id and a later step is a delete/reopen/compact/crash
@@ -636,7 +620,9 @@ func emit(w *vh.W, c *jcase) {
 	}
 	idx := w.Add(term(c), c, nontrivial, shapeSig(c))
 	if c.FailWhat != "" {
-		w.Fail(idx, c.FailWhat, findingSig2)
+		// tolerated only in the shape of the open aliased-id finding (two offsets for one id in the
+		// compacted map); for an id-0 torn entry (repaired) this is a VIOLATION again
+		w.Fail(idx, c.FailWhat, shapeSig(c))
 		w.Count("compaction_after_torn_insert_lost_series", "yes")
 	}
 }
